@@ -94,6 +94,10 @@ func (in *Interp) callFn(fn *ssa.Function, args []Value, bind []Value) Value {
 
 // inStub: a stub may call the function it replaces (to wrap it).
 func (in *Interp) inStub(st *ssa.Function) bool {
+	if in.ld.restub[st] {
+		// re-entrant stub: only the stub's own direct call is let through
+		return in.top != nil && in.top.fn == st
+	}
 	for f := in.top; f != nil; f = f.caller {
 		if f.fn == st {
 			return true
